@@ -101,7 +101,13 @@ func ToolPath(name string) string {
 	if dir == "" {
 		dir = "/verif/harness/.build"
 	}
-	return filepath.Join(dir, name+os.Getenv("VERIF_TOOLS_SUFFIX"))
+	// helpers that link sqlittle are built per repository copy
+	if suf := os.Getenv("VERIF_TOOLS_SUFFIX"); suf != "" {
+		if _, err := os.Stat(filepath.Join(dir, name+suf)); err == nil {
+			return filepath.Join(dir, name+suf)
+		}
+	}
+	return filepath.Join(dir, name)
 }
 
 // StartClient starts cmd/lockprobe (built by the driver into VERIF_TOOLS_DIR).
